@@ -25,8 +25,24 @@ P = {
  "C07": (False, "", "", "", "§3 C07"),
  "C08": (False, "", "", "", "§3 C08"),
  "C09": (False, "", "", "", "§3 C09"),
- "C10": (False, "", "", "", "§3 C10"),
- "C11": (False, "", "", "", "§3 C11"),
+ "C10": (True,
+         "interprocedural ownership / mod-and-flow analysis on SSA (E1, custom; summaries to fixpoint over the VTA call graph)",
+         "Decides the aliasing statement behind 'source and destination stay independent': for Merge/NewFrom/MustNewFrom the source parameter is "
+         "in no mod set and flows into neither destination, options, result nor globals; every value stored into a node by the merge strategies, "
+         "fields.append and the cpy implementations is allocation-fresh with no transitive reference into the function's source; every cpy returns "
+         "a deep copy; normalize* return values independent of the Go value they were built from. 'No shared mutable object exists after the merge' "
+         "holds for all sources, policies and later histories at once. Not decided: what user code does with captured *Config values.",
+         TRUST + "E1 blobs all objects reachable from a parameter (shallow/deep); parameters assumed not to alias at entry; immutable shared types (expressions, paths, metadata) are cut and their immutability is checked separately (R11c).",
+         "§3 C10, §2 E1"),
+ "C11": (True,
+         "interprocedural effect (mod-set) analysis on SSA (E1, custom) + type-based store rule for shared immutable objects",
+         "Decides purity of every read entry point on every code path: the receiver's reachable state is in no mod set of Unpack, the getters, Child, "
+         "Has, HasField, CountField, GetFields, IsDict/IsArray, Path/PathOf/Parent, FlattenedKeys, CompareConfigs (and the source of Merge/NewFrom); "
+         "no non-atomic write to package-level state is reachable; nothing is stored on expression / dynamic-value / path / metadata objects after "
+         "construction. Purity on all paths gives data-race freedom for all interleavings of readers, which no test schedule can settle. "
+         "Not decided: that each reader computes the same result as alone (beyond purity); races inside user callbacks.",
+         TRUST + "Reflect sink cut: objects stored into the caller's unpack target are not tracked through it. valueCache is modelled as per-call.",
+         "§3 C11, §2 E1"),
  "C12": (False, "", "", "", "§3 C12"),
  "C13": (False, "", "", "", "§3 C13"),
  "C14": (False, "", "", "", "§3 C14"),
